@@ -112,7 +112,8 @@ pub fn normalize(e: &Expr, top: bool) -> Expr {
                     .iter()
                     .filter(|i| match i {
                         Item::Ch(c) => *c != '\\',
-                        Item::Range(a, b) => *a != '\\' && *b != '\\' && a <= b,
+                        // (a range written backwards, `[b-a]`, parses and builds: kept)
+                        Item::Range(a, b) => *a != '\\' && *b != '\\',
                     })
                     .cloned()
                     .collect();
